@@ -257,6 +257,13 @@ func (e *Expect) block(n *Node, a Anc, listLevel int) {
 		u := Unit{Kind: "table"}
 		ta := ancWith(a, n, false)
 		for _, sec := range n.Kids {
+			if sec.Tag == "caption" {
+				// not a cell: a paragraph of its own in front of the table
+				cu := Unit{Kind: "p"}
+				collectUnit(sec, ta, false, &cu.Leaves, &e.Forbidden)
+				e.Units = append(e.Units, cu)
+				continue
+			}
 			if !isTag(sec, "thead", "tbody", "tfoot") {
 				if sec.IsComment() {
 					e.Forbidden = append(e.Forbidden, sec.Tok)
